@@ -1073,7 +1073,21 @@ class MayRaise:
                       any(isinstance(tt, ast.Name) and tt.id == n for tt in (x.targets if isinstance(x, ast.Assign) else [x.target]))]
                 if len(nb) != 1 or len(outside) != 1 or n in fi.params():
                     return None
-                nl, nh = self.ival(nb[0], frozenset(), fi)
+                src = nb[0]
+                for _ in range(3):
+                    # n = m, m = len(x): follow plain copies of locals that are bound once
+                    if isinstance(src, ast.Name) and src.id not in fi.params():
+                        b2 = [x.value for x in walk_no_nested(fi.node) if isinstance(x, (ast.Assign, ast.AnnAssign)) and x.value is not None and
+                              any(isinstance(tt, ast.Name) and tt.id == src.id for tt in (x.targets if isinstance(x, ast.Assign) else [x.target]))]
+                        st2 = [x for x in walk_no_nested(fi.node) if isinstance(x, ast.Name) and x.id == src.id and isinstance(x.ctx, ast.Store)]
+                        if len(b2) == 1 and len(st2) == 1:
+                            src = b2[0]
+                            continue
+                    break
+                if isinstance(src, ast.Name) and src.id in fi.params() and not self._rebound(src.id, fi):
+                    nl, nh = self.ival(src, self.param_facts(fi), fi)
+                else:
+                    nl, nh = self.ival(src, frozenset(), fi)
             if nl < 0 or nh == INF:
                 return None
             total += -(-int(nh).bit_length() // k)
